@@ -96,12 +96,12 @@ A0 == [op |-> "", c |-> 0, u |-> 0, path |-> "", v |-> 0, has |-> {}]
 Partials == {{}, {"msa"}, {"sep"}, {"thr"}, {"mr"}, {"msa", "mr"}, {"sep", "thr"}, KnownPaths,
              {"unknown"}, {"msa", "unknown"}, {"thr", "slc.unknown"}}
 Actions ==
-  {[A0 EXCEPT !.op = "gset", !.path = p, !.v = v] : p \in {"msa", "thr", "mr"}, v \in {1, 2}}
+  {[A0 EXCEPT !.op = "gset", !.path = p, !.v = v] : p \in {"msa", "thr", "mr"}, v \in Vals}
   \cup {[A0 EXCEPT !.op = o, !.v = v] : o \in {"gsetlist", "gmutlist"}, v \in {1, 2}}
-  \cup {[A0 EXCEPT !.op = "yaml", !.has = h, !.v = v] : h \in Partials, v \in {1, 2}}      \* the empty assignment: a parameter file with every entry commented out
+  \cup {[A0 EXCEPT !.op = "yaml", !.has = h, !.v = v] : h \in Partials, v \in Vals}      \* the empty assignment: a parameter file with every entry commented out
   \cup {[A0 EXCEPT !.op = "resetall"]}
   \cup {[A0 EXCEPT !.op = "reset", !.has = h] : h \in (SUBSET {"msa", "sep", "slc"}) \ {{}}}
-  \cup {[A0 EXCEPT !.op = "setcaller", !.u = u, !.has = h, !.v = v] : u \in 1..2, h \in Partials, v \in {1, 2}}
+  \cup {[A0 EXCEPT !.op = "setcaller", !.u = u, !.has = h, !.v = v] : u \in 1..2, h \in Partials, v \in Vals}     \* v = 0: the default value (None for MSA) named explicitly
   \cup {[A0 EXCEPT !.op = "construct", !.c = c, !.u = u] : c \in 1..2, u \in 0..2}
   \cup {[A0 EXCEPT !.op = "run", !.c = c] : c \in 1..2}
   \cup {[A0 EXCEPT !.op = "sset", !.c = c, !.path = p, !.v = v] : c \in 1..2, p \in {"msa", "mr"}, v \in {1, 2}}
@@ -116,6 +116,7 @@ ActionsMC ==
   \cup {[A0 EXCEPT !.op = "yaml", !.has = h, !.v = 1] : h \in {{"sep", "thr"}, {"msa", "unknown"}}}
   \cup {[A0 EXCEPT !.op = "resetall"]} \cup {[A0 EXCEPT !.op = "reset", !.has = {"sep"}]}
   \cup {[A0 EXCEPT !.op = "setcaller", !.u = 1, !.has = h, !.v = 2] : h \in {{"sep"}, {"msa", "mr"}, {"thr", "slc.unknown"}}}
+  \cup {[A0 EXCEPT !.op = "setcaller", !.u = 1, !.has = {"msa"}, !.v = 0]}
   \cup {[A0 EXCEPT !.op = "construct", !.c = c, !.u = u] : c \in 1..2, u \in 0..1}
   \cup {[A0 EXCEPT !.op = "sset", !.c = 1, !.path = "msa", !.v = 2]}
   \cup {[A0 EXCEPT !.op = o, !.c = c, !.v = 1] : o \in {"ssetlist", "smutlist"}, c \in 1..2}
